@@ -252,6 +252,11 @@ pub struct Style {
     pub long_comment_line: usize,
     #[serde(default)]
     pub long_trailing_comment: usize,
+    #[serde(default)]
+    pub extra_final_newlines: usize,
+    /// LF and CR LF mixed within one file (lenient).
+    #[serde(default)]
+    pub mixed_endings: bool,
 }
 
 fn sep_str(sep: u8, rng: &mut Rng) -> String {
@@ -358,9 +363,26 @@ pub fn render(table: &[Entry], style: &Style, rng: &mut Rng) -> String {
     while lines.last().map(|l| l.is_empty()).unwrap_or(false) {
         lines.pop();
     }
-    let mut out = lines.join(nl);
+    let mut out = if style.mixed_endings {
+        // every line individually terminated by LF or CR LF
+        let mut o = String::new();
+        let n = lines.len();
+        for (k, l) in lines.iter().enumerate() {
+            o.push_str(l);
+            if k + 1 < n {
+                o.push_str(if rng.chance(1, 2) { "\r\n" } else { "\n" });
+            }
+        }
+        o
+    } else {
+        lines.join(nl)
+    };
     if style.final_newline {
         out.push_str(nl);
+        // empty lines are allowed anywhere, also at the very end
+        for _ in 0..style.extra_final_newlines {
+            out.push_str(nl);
+        }
     }
     out
 }
@@ -407,6 +429,8 @@ pub fn random_style(rng: &mut Rng) -> Style {
         indent_comments: false,
         long_comment_line: 0,
         long_trailing_comment: 0,
+        extra_final_newlines: if rng.chance(1, 6) { rng.urange(1, 3) } else { 0 },
+        mixed_endings: false,
     }
 }
 
@@ -516,6 +540,7 @@ pub fn build_pool(shipped_text: String, shipped_table: Vec<Entry>, n_rendered: u
             // lenient images loadable so that O1 has something to judge
             style.blank_only_lines = r.chance(1, 4);
             style.indent_comments = r.chance(1, 4);
+            style.mixed_endings = r.chance(1, 3);
         }
         // Long lines: comments are free text, nothing bounds their length. Up to 10 KB they are
         // judged strictly; beyond (longer than a 16 or 64 KiB line buffer) a loader may refuse.
